@@ -1149,6 +1149,8 @@ def decorate_for_help(d, rnd, hostile=None):
                 it["metavar"] = f"MV{n}{it['id'].upper()}"
                 if rnd.random() < 0.2:
                     it["env"] = f"BPAFENV_{tag}_{it['id']}".upper().replace("-", "_")
+                if it.get("arity") in ("fallback", "fallback_with") and rnd.random() < 0.7:
+                    it["show_default"] = rnd.choice(["display", "debug", "format"])
             if f["kind"] in ("switch", "reqflag", "arg"):
                 r = rnd.random()
                 if r < 0.15:
